@@ -15,6 +15,7 @@ import (
 	"math/big"
 	"reflect"
 	"strings"
+	"time"
 
 	"verifharness/internal/h"
 
@@ -146,6 +147,9 @@ func runC08(seed uint64, n int, outDir string, replay string) {
 					o.Pad("panic %v", p)
 				}
 			}()
+			if c == 0 {
+				c08AuxBinding(o, rc.Fork())
+			}
 			wo := types.EmptyWorkObject(common.ZONE_CTX)
 			fuzzSetters(rc, wo.WorkObjectHeader(), common.Location{0, 0})
 			wh := wo.WorkObjectHeader()
@@ -316,4 +320,70 @@ func runC08(seed uint64, n int, outDir string, replay string) {
 		}
 	}()
 	o.Close(nil)
+}
+
+// c08AuxBinding: a merge-mined seal binds the donor's work to this header only through the donor coinbase committing to
+// the header's seal hash.  On a real region chain (genesis parent) a header B carries the donor proof made for another
+// header A (other coinbase, other transaction root): VerifyHeader must refuse B at every prime-terminus number from the
+// activation block on - while A with its own proof gets past the commitment check (and fails later, at the template
+// signature the harness cannot produce), which shows the probe reaches the check.
+func c08AuxBinding(o *h.Out, rc *h.Rng) {
+	lvl, _, _, err := newHLevel(rawdbWithLoc(common.Location{0}), common.Location{0}, nil, 1)
+	if err != nil {
+		o.Count("auxbinding:no-region-chain")
+		return
+	}
+	defer func() {
+		done := make(chan struct{})
+		go func() { defer func() { recover(); close(done) }(); lvl.sl.Stop() }()
+		select {
+		case <-done:
+		case <-time.After(3 * time.Second):
+		}
+	}()
+	parent := lvl.hc.CurrentHeader()
+	now := uint64(time.Now().Unix())
+	child := func(ptn uint64, coinbase common.Address, txHash common.Hash) *types.WorkObject {
+		wo := types.EmptyWorkObject(common.REGION_CTX)
+		wo.Header().SetNumber(big.NewInt(1), common.REGION_CTX)
+		wo.Header().SetNumber(new(big.Int).SetUint64(ptn), common.PRIME_CTX)
+		wo.Header().SetParentHash(parent.Hash(), common.REGION_CTX)
+		wh := wo.WorkObjectHeader()
+		wh.SetLocation(common.Location{0, 0})
+		wh.SetParentHash(parent.Hash())
+		wh.SetNumber(big.NewInt(1))
+		wh.SetDifficulty(big.NewInt(1000))
+		wh.SetPrimeTerminusNumber(new(big.Int).SetUint64(ptn))
+		wh.SetTime(now)
+		wh.SetPrimaryCoinbase(coinbase)
+		wh.SetTxHash(txHash)
+		wh.SetHeaderHash(wo.Body().Header().Hash())
+		return wo
+	}
+	proofFor := func(seal common.Hash) *types.AuxPow {
+		coinbaseOut := []byte{0x01, 0, 0, 0, 0, 0, 0, 0, 0, 0x00, 0, 0, 0, 0}
+		tx := types.NewAuxPowCoinbaseTx(types.Kawpow, 1000, coinbaseOut, seal, uint32(now)-10)
+		root := types.CalculateMerkleRoot(types.Kawpow, tx, nil)
+		donor := types.NewRavencoinBlockHeader(0x30000000, [32]byte{1}, root, uint32(now), 0x1d00ffff, 1000)
+		return types.NewAuxPow(types.Kawpow, types.NewAuxPowHeader(donor), nil, make([]byte, 64), nil, tx)
+	}
+	cbA := common.HexToAddress("0x0000000000000000000000000000000000000001", common.Location{0, 0})
+	cbB := common.HexToAddress("0x0000000000000000000000000000000000000002", common.Location{0, 0})
+	for _, ptn := range []uint64{params.KawPowForkBlock, params.KawPowForkBlock + 1, params.KawPowForkBlock + 2 + uint64(rc.Intn(100000))} {
+		a := child(ptn, cbA, types.EmptyRootHash)
+		proof := proofFor(a.SealHash())
+		own := types.CopyWorkObject(a)
+		own.WorkObjectHeader().SetAuxPow(types.CopyAuxPow(proof))
+		b := child(ptn, cbB, common.HexToHash("0xbeef"))
+		b.WorkObjectHeader().SetAuxPow(types.CopyAuxPow(proof))
+		errOwn, errB := lvl.hc.VerifyHeader(own), lvl.hc.VerifyHeader(b)
+		switch {
+		case errB == nil:
+			o.Violate("c08-auxpow-not-bound-to-header", fmt.Sprintf("prime terminus %d (activation block %d): a header with seal hash %x is accepted with a donor proof whose coinbase commits to the seal hash %x of another header", ptn, params.KawPowForkBlock, b.SealHash().Bytes()[:6], a.SealHash().Bytes()[:6]))
+		case errOwn != nil && errOwn.Error() == errB.Error():
+			o.Count("auxbinding:inconclusive") // both stop at the same, earlier check: the probe did not reach the commitment
+		default:
+			o.Count("auxbinding:foreign-proof-refused")
+		}
+	}
 }
